@@ -123,6 +123,34 @@ def torch_roll(it, args, kwargs, node):
     return r
 
 
+def arange_len(args):
+    """Length of arange(*args) as a dim when it is decidable."""
+    from .ops import dim_of
+
+    ts = [num_term(x) for x in args]
+    if any(t is None for t in ts):
+        return UNK
+    if len(ts) == 1:
+        return dim_of(args[0])
+    if len(ts) == 2:
+        d = ts[1] - ts[0]
+    else:
+        st = ts[2].const_value()
+        if st not in (1, -1):
+            cs = [t.const_value() for t in ts]
+            if all(c is not None for c in cs) and cs[2] != 0:
+                return len(range(int(cs[0]), int(cs[1]), int(cs[2])))
+            return UNK
+        d = (ts[1] - ts[0]) * st
+    c = d.const_value()
+    if c is not None:
+        return max(int(c), 0)
+    at = d.single_atom()
+    if isinstance(at, T.Sym):
+        return at.name
+    return ("poly", d)
+
+
 def parse_einsum(spec):
     spec = spec.replace(" ", "")
     lhs, _, rhs = spec.partition("->")
@@ -608,21 +636,8 @@ def call_torch(it, f, args, kwargs, node):
         from .ops import dim_of
 
         a = [x for x in args]
-        ok = [const_of(x) for x in a]
-        shape = None
         desc = tuple(num_term(x) if num_term(x) is not None else T.sym("?") for x in a)
-        if len(a) == 1:
-            shape = (dim_of(a[0]),)
-        elif len(a) == 3 and all(o for o, _ in ok):
-            shape = (len(range(*[c for _, c in ok])),)
-        elif len(a) == 3:
-            # arange(n, 0, -1): n elements
-            if ok[1] == (True, 0) and ok[2] == (True, -1):
-                shape = (dim_of(a[0]),)
-            else:
-                shape = (UNK,)
-        else:
-            shape = (UNK,)
+        shape = (arange_len(a),)
         r = it.fresh(T.app("arange", *desc), shape, "tensor", node)
         return r
     if f == "roll":
@@ -739,7 +754,7 @@ def call_numpy(it, f, args, kwargs, node):
         return literal_tensor(it, x, node, kind="ndarray")
     if f == "arange":
         a = args
-        shape = (dim_of(a[0]),) if len(a) == 1 else (UNK,)
+        shape = (arange_len(a),)
         desc = tuple(num_term(x) if num_term(x) is not None else T.sym("?") for x in a)
         return it.fresh(T.app("arange", *desc), shape, "ndarray", node)
     if f in ("ones", "zeros"):
